@@ -5,6 +5,11 @@ from pathlib import Path
 V = Path(__file__).resolve().parent.parent
 
 CLAIMED = {
+ "C04": ("per-tree Coq instance theorems c04_generator_model_reproduces_shipped (vm_compute): the Gallina model of the generator applied to each of the 186 pinned definitions yields, for each of their versions (all 666 modules), exactly the shipped classes (names, field order, annotations, metadata, tags, defaults, flexibility, key, header); plus translation validation: the package equals the pinned canonical description (hand edits), the CURRENT generator re-run on the pinned definitions reproduces the package (generator changes), hand-written API-key pins and counts. Limitation: upstream JSON is not available offline; pinned/defs are reconstructions validated by regenerating all 1629 classes with the unmodified generator",
+         "Coq instance theorems by vm_compute (generator model on pinned definitions) + translation validation of the real generator", "4 C04"),
+ "C16": ("Coq theorems over the Gallina model of the generator, for every definition and version: the fields of the emitted top-level class are exactly the definition's fields valid at the version, in order, snake-cased, tagged iff the version is in taggedVersions; all classes carry version/flexibility/key/header rule; one class per structure (no self-nesting); correspondence on seeded random definitions: real generator output = model, independent reading of the definition, generated index, and bytes kio encodes for instances of generated classes = model encoder over plans read off the definition (with wf_env checked per module). Partial: pydantic's JSON layer and the supported-subset conditions (keywords, zero-size array items, optional tagged structs) are inside the correspondence, not the theorems",
+         "machine-checked proof (Coq) over the generator model + translation-validation correspondence on random definitions", "4 C16"),
+
  "C12": ("Coq theorems (Types/PhantomProofs.v): constructor call = identity on members / TypeError otherwise; integer types nest by range for ALL integers; membership of a fixed-width type <-> the writer succeeds, and then the reader returns the value; f64, both duration types (read back as the value rounded half-even to whole ms) and the timestamp type are accepted by their writers and read back; instance theorem: translated interval bounds = documented bounds and subclass chains nest; correspondence on isinstance / constructor / writer / read-back over boundary values of every Python type",
          "machine-checked proof (Coq) + instance theorem + correspondence", "4 C12"),
  "C13": ("instance theorem c13_shipped by vm_compute over all 1629 classes / 5094 fields: annotation <-> kafka type table, nullability only on nullable-capable types, tuple[T, ...] arrays, defaults inhabit the declared type (entity defaults by class identity and field-wise), unique in-range tags on flexible classes only, reader+writer plans derivable by the Gallina rendering of kio's introspection AND well-formed (wf_env, the hypothesis of the codec theorems); that rendering is compared with kio's functions on every field plus 300 synthetic annotation/metadata combinations",
@@ -44,8 +49,6 @@ CLAIMED = {
 }
 
 NOT_YET = {
- "C04": "check under construction in this session (pinned schema + generator run)",
- "C16": "check under construction in this session",
 }
 
 NOTE = ("Trusted base: Coq 8.16.1 kernel + VM (vm_compute; no native_compute); harness/translate.py; the correspondence "
